@@ -26,6 +26,9 @@ type c01Case struct {
 	Items [][3]int `json:"items,omitempty"`
 	Class string   `json:"class,omitempty"`
 	CSeed uint64   `json:"cseed,omitempty"`
+	// After > 0 (gen afterr): that many rejected Encode calls (truncated frame) and one rejected
+	// Decode call (truncated stream) are made on the codec just before the round trip
+	After int `json:"after,omitempty"`
 }
 
 type c01 struct{}
@@ -179,6 +182,13 @@ func (c01) Build(tier string, seed uint64) []any {
 		}
 		cs = append(cs, &c01Case{Gen: "rand", Rows: h, Cols: w, BA: l[0], SPP: l[1], Planar: l[2], Class: gen.Classes[r.Intn(len(gen.Classes))], CSeed: r.U64()})
 	}
+	// (afterr) the round trip right after calls the codec rejected (state left behind by an
+	// error path - pooled encoders, partially written headers - must not leak into the next frame)
+	for i := 0; i < nRand/4; i++ {
+		r := gen.Sub(seed, "C01", "afterr", i)
+		l := c01Layouts[r.Intn(len(c01Layouts))]
+		cs = append(cs, &c01Case{Gen: "afterr", Rows: 1 + r.Intn(40), Cols: 1 + r.Intn(40), BA: l[0], SPP: l[1], Planar: l[2], Class: gen.Pick(r, "runs", "noise", "lowent", "const", "smooth"), CSeed: r.U64(), After: 1 + r.Intn(4)})
+	}
 	// (long)
 	for i, l := range c01Layouts {
 		for _, g := range [][2]int{{65535, 1}, {1, 65535}} {
@@ -260,7 +270,11 @@ func (c *c01Case) frame() []byte {
 func (c01) Exec(d any) mon.Result {
 	c := d.(*c01Case)
 	if c.Gen != "enum" {
-		res := c01One(c, c.frame())
+		fr := c.frame()
+		if c.After > 0 {
+			c01Rejected(c, fr)
+		}
+		res := c01One(c, fr)
 		res.Cell(fmt.Sprintf("layout=%d/%d/%d", c.BA, c.SPP, c.Planar))
 		res.Cell("gen=" + c.Gen)
 		return res
@@ -380,4 +394,25 @@ func (c01) Finish(obs map[string]int64, ev map[string]any) {
 	}
 	ev["distinct_literal_lengths_seen_by_reference_reader(of 128)"] = lit
 	ev["distinct_replicate_lengths_seen_by_reference_reader(of 127)"] = rep
+}
+
+// c01Rejected makes calls the codec must reject (their outcome is C17's and C08's business,
+// not judged here): Encode of the frame cut short, Decode of a stream cut short.
+func c01Rejected(c *c01Case, frame []byte) {
+	defer func() { _ = recover() }()
+	info := FrameInfo(c.Cols, c.Rows, c.BA, c.BA, c.SPP, 0, c.Planar)
+	cd := Codec("rle")
+	r := gen.New(c.CSeed ^ 0x5eed)
+	for k := 0; k < c.After; k++ {
+		cut := len(frame) - 1 - r.Intn(len(frame))
+		if cut < 0 {
+			cut = 0
+		}
+		_ = cd.Encode(NewPD(info, append([]byte(nil), frame[:cut]...)), NewPD(info), nil)
+	}
+	enc := NewPD(info)
+	if err := cd.Encode(NewPD(info, append([]byte(nil), frame...)), enc, nil); err == nil && len(enc.Frames) == 1 && len(enc.Frames[0]) > 66 {
+		st := enc.Frames[0]
+		_ = cd.Decode(NewPD(info, append([]byte(nil), st[:64+r.Intn(len(st)-64)]...)), NewPD(info), nil)
+	}
 }
